@@ -113,7 +113,7 @@ structure View where
   seenSettings : Bool
   connOut : Int
   streams : List Stream
-  pendingOpen : Option (Nat × Nat × Bool)
+  pendingOpen : Option Req
 
 def view (st : State) : View :=
   { cfg := st.cfg, maxFrameSize := st.maxFrameSize, initialWindowSize := st.initialWindowSize,
@@ -158,7 +158,7 @@ structure SInv (v : View) (m : Send) : Prop where
   sorted : (v.streams.map (·.id)).Pairwise (· < ·)
   oddIds : ∀ s ∈ v.streams, s.id % 2 = 1
   idsLt : ∀ s ∈ v.streams, s.id < v.nextStreamID
-  pendOpen : ∀ h b k, v.pendingOpen = some (h, b, k) → h > 0
+  pendOpen : ∀ r, v.pendingOpen = some r → r.hdrLen > 0
 
 
 /-! ### generic transport lemmas -/
@@ -361,7 +361,7 @@ theorem sim_writeStep {st : State} {m : Send} (h : SInv (view st) m) {id : Nat} 
     have ha2 : available st.connOut s0.out ≤ s0.out := by unfold available; split <;> omega
     have hmfeq : m.maxFrame = st.maxFrameSize := by simpa [view] using h.maxFrame
     have hlen : ((take.toNat : Nat) : Int) = take := by omega
-    generalize hlast : (decide (s0.chunk - take.toNat = 0) && decide (s0.bodyRemain = 0) && s0.known) = last
+    generalize hlast : (decide (s0.chunk - take.toNat = 0) && decide (s0.bodyRemain = 0) && s0.known && s0.trailer.isNone) = last
     refine ⟨{ m with connWin := m.connWin - (take.toNat : Int), streams := setM m.streams { ms with win := ms.win - (take.toNat : Int), cEnd := last } }, ?_, ?_⟩
     · have h1 : ¬ (take.toNat > m.maxFrame) := by rw [hmfeq]; omega
       have h2 : ¬ (take.toNat > 0 ∧ (take.toNat : Int) > m.connWin) := by omega
@@ -517,18 +517,6 @@ theorem sim_feed {st : State} {m : Send} (h : SInv (view st) m) (id n : Nat) :
     · exact ⟨m, rfl, sinv_set_left h (v := view st) hf rfl rfl rfl rfl rfl⟩
     · exact ⟨m, rfl, h⟩
 
-theorem sim_write {st : State} {m : Send} (h : SInv (view st) m) (id : Nat) :
-    ∃ m', Send.run m ((write st id).2.map Event.c) = .ok m' ∧ SInv (view (write st id).1) m' := by
-  unfold write
-  split
-  · exact ⟨m, rfl, h⟩
-  · rename_i s hf
-    split
-    · exact ⟨m, rfl, h⟩
-    · rename_i c s' f hw
-      obtain ⟨m', h1, h2⟩ := sim_writeStep h hf hw
-      exact ⟨m', send_run_single_c h1, h2⟩
-
 theorem sim_cancel {st : State} {m : Send} (h : SInv (view st) m) (id : Nat) :
     ∃ m', Send.run m ((cancel st id).2.map Event.c) = .ok m' ∧ SInv (view (cancel st id).1) m' := by
   unfold cancel
@@ -538,21 +526,6 @@ theorem sim_cancel {st : State} {m : Send} (h : SInv (view st) m) (id : Nat) :
     split
     · rename_i hl
       exact sim_terminate_client h hf hl rfl rfl rfl
-    · exact ⟨m, rfl, h⟩
-
-theorem sim_read {st : State} {m : Send} (h : SInv (view st) m) (id n : Nat) :
-    ∃ m', Send.run m ((Conn.read st id n).2.map Event.c) = .ok m' ∧ SInv (view (Conn.read st id n).1) m' := by
-  unfold Conn.read
-  split
-  · exact ⟨m, rfl, h⟩
-  · rename_i s hf
-    split
-    · unfold readCore
-      split
-      · exact ⟨m, rfl, h⟩
-      · split
-        · exact ⟨m, rfl, h⟩
-        · exact ⟨m, send_run_wu2 h.hdr _ _ _ _, sinv_set_left h (v := view st) hf rfl rfl rfl rfl rfl⟩
     · exact ⟨m, rfl, h⟩
 
 theorem sim_creditConn {r : State × List Frame} {m m' : Send} (_hm : m.hdrOpen = none)
@@ -567,6 +540,63 @@ theorem sim_creditConn {r : State × List Frame} {m m' : Send} (_hm : m.hdrOpen 
       exact send_run_ok_append hrun (send_run_wu hinv.hdr _ _)
   · exact ⟨m', hrun, hinv⟩
 
+theorem sim_readCore {st : State} {m : Send} (h : SInv (view st) m) {id : Nat} {s s' : Stream}
+    (hf : findStream st.streams id = some s)
+    (h1 : s'.id = s.id) (h2 : s'.live = s.live) (h3 : s'.out = s.out) (h4 : s'.sentEnd = s.sentEnd)
+    (h5 : s'.peerEnd = s.peerEnd) (k : Nat) :
+    ∃ m', Send.run m ((readCore st s' k).2.map Event.c) = .ok m' ∧ SInv (view (readCore st s' k).1) m' := by
+  unfold readCore
+  split
+  · exact ⟨m, rfl, h⟩
+  · split
+    · exact ⟨m, rfl, h⟩
+    · exact ⟨m, send_run_wu2 h.hdr _ _ _ _, sinv_set_left h (v := view st) hf h1 h2 h3 h4 h5⟩
+
+theorem sim_closeStream {st : State} {m : Send} (h : SInv (view st) m) {id : Nat} {s s' : Stream}
+    (hf : findStream st.streams id = some s)
+    (h1 : s'.id = s.id) (h2 : s'.live = s.live) (h3 : s'.out = s.out) (h4 : s'.sentEnd = s.sentEnd)
+    (h5 : s'.peerEnd = s.peerEnd) :
+    ∃ m1, Send.run m ((closeStream st s s').2.map Event.c) = .ok m1 ∧
+      SInv (view (closeStream st s s').1) m1 := by
+  unfold closeStream
+  split
+  · rename_i hl
+    exact sim_terminate_client h hf hl h1 h4 h5
+  · exact ⟨m, rfl, sinv_set_left h (v := view st) hf h1 h2 h3 h4 h5⟩
+
+theorem sim_readOverlong {st : State} {m : Send} (h : SInv (view st) m) {id : Nat} {s : Stream}
+    (hf : findStream st.streams id = some s) (k : Nat) :
+    ∃ m', Send.run m ((readOverlong st s k).2.map Event.c) = .ok m' ∧
+      SInv (view (readOverlong st s k).1) m' := by
+  unfold readOverlong
+  obtain ⟨m1, hr1, hi1⟩ := sim_closeStream h hf
+    (s' := { s with buffered := s.buffered - k, readErr := true }) rfl rfl rfl rfl rfl
+  simp only
+  split
+  · exact sim_creditConn h.hdr hr1 hi1 _
+  · exact ⟨m1, hr1, hi1⟩
+
+theorem sim_readK {st : State} {m : Send} (h : SInv (view st) m) {id : Nat} {s : Stream}
+    (hf : findStream st.streams id = some s) (k : Nat) :
+    ∃ m', Send.run m ((readK st s k).2.map Event.c) = .ok m' ∧ SInv (view (readK st s k).1) m' := by
+  unfold readK
+  split
+  · exact sim_readCore h hf rfl rfl rfl rfl rfl _
+  · rename_i rem _
+    split
+    · exact sim_readOverlong h hf _
+    · exact sim_readCore (s' := { s with bytesRemain := some (rem - k) }) h hf rfl rfl rfl rfl rfl _
+
+theorem sim_read {st : State} {m : Send} (h : SInv (view st) m) (id n : Nat) :
+    ∃ m', Send.run m ((Conn.read st id n).2.map Event.c) = .ok m' ∧ SInv (view (Conn.read st id n).1) m' := by
+  unfold Conn.read
+  split
+  · exact ⟨m, rfl, h⟩
+  · rename_i s hf
+    split
+    · exact sim_readK h hf _
+    · exact ⟨m, rfl, h⟩
+
 theorem sim_close {st : State} {m : Send} (h : SInv (view st) m) (id : Nat) :
     ∃ m', Send.run m ((close st id).2.map Event.c) = .ok m' ∧ SInv (view (close st id).1) m' := by
   unfold close
@@ -574,14 +604,8 @@ theorem sim_close {st : State} {m : Send} (h : SInv (view st) m) (id : Nat) :
   · exact ⟨m, rfl, h⟩
   · rename_i s hf
     split
-    · have hcs : ∃ m1, Send.run m ((closeStream st s { s with broken := true, buffered := 0 }).2.map Event.c) = .ok m1 ∧
-          SInv (view (closeStream st s { s with broken := true, buffered := 0 }).1) m1 := by
-        unfold closeStream
-        split
-        · rename_i hl
-          exact sim_terminate_client h hf hl rfl rfl rfl
-        · exact ⟨m, rfl, sinv_set_left h (v := view st) hf rfl rfl rfl rfl rfl⟩
-      obtain ⟨m1, hr1, hi1⟩ := hcs
+    · obtain ⟨m1, hr1, hi1⟩ := sim_closeStream h hf (s' := { s with broken := true, buffered := 0 })
+        rfl rfl rfl rfl rfl
       exact sim_creditConn h.hdr hr1 hi1 _
     · exact ⟨m, rfl, h⟩
 
@@ -671,24 +695,25 @@ theorem streamOut0_eq (iw : Nat) (h : iw ≤ 2147483647) : streamOut0 iw = (iw :
   rw [wrap32_of_in32 hin, addWindow_zero iw h]
   rfl
 
-theorem sim_doOpen {st : State} {m : Send} (h : SInv (view st) m) (hdrLen bodyLen : Nat) (known : Bool)
-    (hlen : 0 < hdrLen) (hslot : liveCount st.streams < st.maxConcurrent) :
-    ∃ m', Send.run m ((doOpen st hdrLen bodyLen known).2.map Event.c) = .ok m' ∧
-      SInv (view (doOpen st hdrLen bodyLen known).1) m' := by
-  have hfix : st.cfg.fixes.hdrPrio = true := by
-    have := h.fixes; simp only [view] at this; rw [this]; rfl
-  have hmf : m.maxFrame = st.maxFrameSize := h.maxFrame
+theorem endOnHeaders_all (hasBody : Bool) (t : Option Nat) : endOnHeaders Fixes.all hasBody t = !hasBody := by
+  cases hasBody <;> cases t <;> rfl
+
+/-- the monitor's books after a new stream's header block -/
+def openedMon (m : Send) (id : Nat) (es : Bool) : Send :=
+  { m with lastId := id, hdrOpen := none,
+           streams := m.streams ++ [{ id := id, win := m.initWin, cEnd := es, cRst := false, pEnd := false, pRst := false }] }
+
+theorem doOpen_frames {st : State} (hfixes : st.cfg.fixes = Fixes.all) (r : Req) :
+    (doOpen st r).2 = headerFrames (r.hdrLen + 1) st.nextStreamID r.hdrLen (!(!(r.known && r.bodyLen == 0)))
+      st.maxFrameSize st.cfg.hdrPrio true true := by
+  simp only [doOpen, hfixes, endOnHeaders_all]
+  rfl
+
+/-- the invariant after `doOpen`, whatever admitted the stream -/
+theorem sinv_doOpen {st : State} {m : Send} (h : SInv (view st) m) (r : Req) :
+    SInv (view (doOpen st r).1) (openedMon m st.nextStreamID (!(!(r.known && r.bodyLen == 0)))) := by
+  simp only [doOpen, openedMon]
   have hlast : st.nextStreamID > m.lastId := h.lastId
-  have hconc : ∀ k, m.maxConc = some k → openCount m.streams + 1 ≤ k := by
-    intro k hk
-    have h1 := h.conc k hk
-    have h2 := rels_open_le_live h.rel
-    simp only [view] at h1 h2
-    omega
-  have hrun := headers_run h.hdr st.nextStreamID hdrLen (!(!(known && bodyLen == 0))) st.cfg.hdrPrio st.maxFrameSize
-    hmf h.frameLo hlen hlast h.odd hconc
-  simp only [doOpen, hfix]
-  refine ⟨_, hrun, ?_⟩
   have hiw := h.initWin
   have hih := h.initHi
   have hodd := h.odd
@@ -750,10 +775,29 @@ theorem sim_doOpen {st : State} {m : Send} (h : SInv (view st) m) (hdrLen bodyLe
     · simp only [view]; omega
 
 
-theorem sim_openStream {st : State} {m : Send} (h : SInv (view st) m) (hdrLen bodyLen : Nat) (known : Bool)
-    (hlen : 0 < hdrLen) :
-    ∃ m', Send.run m ((openStream st hdrLen bodyLen known).2.map Event.c) = .ok m' ∧
-      SInv (view (openStream st hdrLen bodyLen known).1) m' := by
+
+theorem sim_doOpen {st : State} {m : Send} (h : SInv (view st) m) (r : Req)
+    (hlen : 0 < r.hdrLen) (hslot : liveCount st.streams < st.maxConcurrent) :
+    ∃ m', Send.run m ((doOpen st r).2.map Event.c) = .ok m' ∧
+      SInv (view (doOpen st r).1) m' := by
+  have hfixes : st.cfg.fixes = Fixes.all := by have := h.fixes; simpa only [view] using this
+  have hmf : m.maxFrame = st.maxFrameSize := h.maxFrame
+  have hlast : st.nextStreamID > m.lastId := h.lastId
+  have hconc : ∀ k, m.maxConc = some k → openCount m.streams + 1 ≤ k := by
+    intro k hk
+    have h1 := h.conc k hk
+    have h2 := rels_open_le_live h.rel
+    simp only [view] at h1 h2
+    omega
+  have hrun := headers_run h.hdr st.nextStreamID r.hdrLen (!(!(r.known && r.bodyLen == 0))) st.cfg.hdrPrio st.maxFrameSize
+    hmf h.frameLo hlen hlast h.odd hconc
+  rw [doOpen_frames hfixes]
+  exact ⟨_, hrun, sinv_doOpen h r⟩
+
+theorem sim_openStream {st : State} {m : Send} (h : SInv (view st) m) (r : Req)
+    (hlen : 0 < r.hdrLen) :
+    ∃ m', Send.run m ((openStream st r).2.map Event.c) = .ok m' ∧
+      SInv (view (openStream st r).1) m' := by
   unfold openStream
   split
   · exact ⟨m, rfl, h⟩
@@ -761,9 +805,9 @@ theorem sim_openStream {st : State} {m : Send} (h : SInv (view st) m) (hdrLen bo
     · exact ⟨m, rfl, h⟩
     · split
       · rename_i hslot
-        exact sim_doOpen h hdrLen bodyLen known hlen hslot
+        exact sim_doOpen h r hlen hslot
       · refine ⟨m, rfl, { h with pendOpen := ?_ }⟩
-        intro a b c hp
+        intro a hp
         simp only [view] at hp
         cases hp
         exact hlen
@@ -774,10 +818,10 @@ theorem sim_resumePending {st : State} {m : Send} (h : SInv (view st) m) :
   unfold resumePending
   split
   · exact ⟨m, rfl, h⟩
-  · rename_i hd bd kd hp
+  · rename_i rq hp
     have h0 : SInv (view { st with pendingOpen := none }) m :=
-      { h with pendOpen := by intro a b c hx; simp [view] at hx }
-    have hlen : 0 < hd := h.pendOpen hd bd kd (by simp only [view]; exact hp)
+      { h with pendOpen := by intro a hx; simp [view] at hx }
+    have hlen : 0 < rq.hdrLen := h.pendOpen rq (by simp only [view]; exact hp)
     simp only
     split
     · exact ⟨m, rfl, h0⟩
@@ -785,7 +829,7 @@ theorem sim_resumePending {st : State} {m : Send} (h : SInv (view st) m) :
       · exact ⟨m, rfl, h0⟩
       · split
         · rename_i hslot
-          exact sim_doOpen h0 hd bd kd hlen hslot
+          exact sim_doOpen h0 rq hlen hslot
         · exact ⟨m, rfl, h⟩
 
 
@@ -846,6 +890,105 @@ theorem find_none {v : View} {m : Send} (h : SInv v m) {id : Nat}
   rcases rels_find h.rel id with ⟨_, hn⟩ | ⟨s0, ms, hs0, _, _, _⟩
   · exact hn
   · rw [hf] at hs0; cases hs0
+
+/-- a trailer block — HEADERS with END_STREAM on a stream the client has not closed yet, then
+CONTINUATION — is accepted as a whole and half-closes the stream -/
+theorem trailers_run {m : Send} (hdr : m.hdrOpen = none) (id len : Nat) (prio : Bool) (mf : Nat)
+    (hmf : m.maxFrame = mf) (h16 : 16384 ≤ mf) (hlen : 0 < len) (hid : ¬ id > m.lastId)
+    {ms : MStream} (hms : findM m.streams id = some ms) (hce : ms.cEnd = false) (hcr : ms.cRst = false) :
+    Send.run m ((headerFrames (len + 1) id len true mf prio true true).map Event.c) =
+      .ok { m with hdrOpen := none, streams := setM m.streams { ms with cEnd := true } } := by
+  have hne : ¬ len = 0 := by omega
+  simp only [headerFrames, hne, if_false, List.map_cons, true_and, and_true, if_true]
+  generalize hlimit : (if prio = true then mf - 5 else mf) = limit
+  have hl1 : limit ≤ mf := by rw [← hlimit]; split <;> omega
+  have hl2 : 0 < limit := by rw [← hlimit]; split <;> omega
+  have hl3 : prio = true → limit + 5 ≤ mf := by intro hp; rw [← hlimit]; simp [hp]; omega
+  generalize hchunk : (if len > limit then limit else len) = chunk
+  have hc1 : chunk ≤ limit := by rw [← hchunk]; split <;> omega
+  have hc2 : 0 < chunk := by rw [← hchunk]; split <;> omega
+  have hc3 : chunk ≤ len := by rw [← hchunk]; split <;> omega
+  have hflen : ¬ (chunk + (if prio = true then 5 else 0) > m.maxFrame) := by
+    rw [hmf]
+    by_cases hp : prio = true
+    · have := hl3 hp; simp [hp]; omega
+    · simp [hp]; omega
+  have hstep : m.client (Frame.headers id (chunk + (if prio = true then 5 else 0)) true (decide (len - chunk = 0))) =
+      .ok { m with hdrOpen := if decide (len - chunk = 0) then none else some id,
+                   streams := setM m.streams { ms with cEnd := true } } := by
+    simp [Send.client, hdr, hflen, hid, hms, hce, hcr]
+  rw [send_run_cons_c hstep]
+  by_cases hrest : len - chunk = 0
+  · simp [hrest, headerFrames_zero, Send.run]
+  · simp only [hrest, decide_false, Bool.false_eq_true, if_false]
+    exact cont_run id true mf prio true (by omega) len (len - chunk) _ rfl hmf (by omega) (by omega)
+
+/-- the client half-closes a live stream: the monitor notes END_STREAM, the model stores the
+stream and forgets it when the peer had finished as well -/
+theorem sinv_sentEnd {st : State} {m : Send} (h : SInv (view st) m) {id : Nat} {s : Stream} {ms : MStream}
+    (hf : findStream st.streams id = some s) (hms : findM m.streams id = some ms)
+    (hr : Rel (view st).initialWindowSize s ms) (hl : s.live = true) :
+    SInv (view (settle st { s with sentEnd := true }))
+      { m with hdrOpen := none, streams := setM m.streams { ms with cEnd := true } } := by
+  rw [view_settle]
+  simp only [hl, true_and]
+  have hcr := hr.cRst hl
+  have hbase : SInv (view st) { m with hdrOpen := none } := { h with hdr := rfl }
+  refine sinv_set hbase (v := view st) (ms' := { ms with cEnd := true }) hf hms (by split <;> rfl) rfl ?_
+  by_cases hp : s.peerEnd = true
+  · simp only [hp, and_self, if_true]
+    exact { id := hr.id, win := by simp, lo := by simp, hi := by simp, cRst := by simp, cEnd := by simp,
+            pEnd := fun _ => hr.pEnd hp,
+            dead := fun _ => by simp [MStream.closed, hr.pEnd hp] }
+  · have hp' : s.peerEnd = false := by cases hx : s.peerEnd <;> simp [hx] at hp ⊢
+    simp only [hp', Bool.false_eq_true, and_false, if_false]
+    exact { id := hr.id, win := fun _ => hr.win hl, lo := fun _ => hr.lo hl,
+            hi := fun _ => hr.hi hl, cRst := fun _ => hcr, cEnd := fun _ => by simp,
+            pEnd := fun hx => by simp [hp'] at hx,
+            dead := fun hx => by simp [hl] at hx }
+
+theorem sim_trailerStep {st : State} {m : Send} (h : SInv (view st) m) {id : Nat} {s s' : Stream}
+    {fs : List Frame} (hf : findStream st.streams id = some s) (ht : trailerStep st s = some (s', fs)) :
+    ∃ m', Send.run m (fs.map Event.c) = .ok m' ∧ SInv (view (settle st s')) m' := by
+  obtain ⟨ms, hms, hr, hid⟩ := find_pair h (v := view st) hf
+  have hfixT : st.cfg.fixes.trailerFrame = true := by
+    have := h.fixes; simp only [view] at this; rw [this]; rfl
+  have hfixP : st.cfg.fixes.hdrPrio = true := by
+    have := h.fixes; simp only [view] at this; rw [this]; rfl
+  unfold trailerStep at ht
+  split at ht
+  · cases ht
+  · rename_i n _
+    split at ht
+    · rename_i hc
+      obtain ⟨hl, hse, _, _, hn⟩ := hc
+      have hse' : s.sentEnd = false := by cases hx : s.sentEnd <;> simp [hx] at hse ⊢
+      cases ht
+      have hmm := findM_mem hms
+      have hlast : ¬ s.id > m.lastId := by
+        have := (h.ids ms hmm.1).1
+        rw [hid, ← hmm.2]; omega
+      have hce : ms.cEnd = false := by rw [hr.cEnd hl]; exact hse'
+      have hrun := trailers_run h.hdr s.id n st.cfg.hdrPrio st.maxFrameSize h.maxFrame h.frameLo hn hlast
+        (by rw [hid]; exact hms) hce (hr.cRst hl)
+      simp only [hfixT, hfixP, if_true]
+      exact ⟨_, hrun, sinv_sentEnd h hf hms hr hl⟩
+    · cases ht
+
+theorem sim_write {st : State} {m : Send} (h : SInv (view st) m) (id : Nat) :
+    ∃ m', Send.run m ((write st id).2.map Event.c) = .ok m' ∧ SInv (view (write st id).1) m' := by
+  unfold write
+  split
+  · exact ⟨m, rfl, h⟩
+  · rename_i s hf
+    split
+    · rename_i s' fs ht
+      exact sim_trailerStep h hf ht
+    · split
+      · exact ⟨m, rfl, h⟩
+      · rename_i c s' f hw
+        obtain ⟨m', h1, h2⟩ := sim_writeStep h hf hw
+        exact ⟨m', send_run_single_c h1, h2⟩
 
 theorem sim_peerSettingsAck {st : State} {m : Send} (h : SInv (view st) m) :
     ∃ m', Send.run (m.peer .settingsAck) ((peerSettingsAck st).2.map Event.c) = .ok m' ∧
@@ -1028,10 +1171,11 @@ theorem sinv_pEnd {st : State} {m : Send} (h : SInv (view st) m) {id : Nat} {s :
         · exact Or.inl (Or.inr h1)
         · exact Or.inr ⟨h1.1, Or.inl h1.2⟩ }
 
-theorem sim_peerHeaders {st : State} {m : Send} (h : SInv (view st) m) (id : Nat) (es : Bool) :
-    ∃ m', Send.run (m.peer (.headers id es)) ((peerHeaders st id es).2.map Event.c) = .ok m' ∧
-      SInv (view (peerHeaders st id es).1) m' := by
-  unfold peerHeaders
+theorem sim_peerResp {st : State} {m : Send} (h : SInv (view st) m) (id : Nat) (es : Bool)
+    (status : Nat) (cl : Option Nat) :
+    ∃ m', Send.run (m.peer (.resp id es status cl)) ((peerResp st id es status cl).2.map Event.c) = .ok m' ∧
+      SInv (view (peerResp st id es status cl).1) m' := by
+  unfold peerResp
   split
   · rename_i hf
     simp only [Send.peer, find_none h (v := view st) hf]
@@ -1047,13 +1191,36 @@ theorem sim_peerHeaders {st : State} {m : Send} (h : SInv (view st) m) (id : Nat
       split
       · exact sim_terminate_client hbase hf hl' rfl rfl rfl
       · split
-        · exact ⟨_, rfl, sim_settle_peer h es hf hms hr hl' rfl rfl rfl rfl (fun hp => Or.inr hp)⟩
+        · split
+          · exact sim_terminate_client hbase hf hl' rfl rfl rfl
+          · split
+            · split
+              · exact sim_terminate_client hbase hf hl' rfl rfl rfl
+              · exact ⟨_, rfl, sinv_set_left hbase (v := view st) hf rfl rfl rfl rfl rfl⟩
+            · exact ⟨_, rfl, sim_settle_peer h es hf hms hr hl' rfl rfl rfl rfl (fun hp => Or.inr hp)⟩
         · split
           · exact ⟨_, rfl, hbase⟩
           · rename_i he
             have he' : es = true := by cases hx : es <;> simp [hx] at he ⊢
             exact ⟨_, rfl, sim_settle_peer h es hf hms hr hl' rfl rfl rfl rfl (fun _ => Or.inr he')⟩
 
+
+theorem sim_discardData {st : State} {m : Send} (h : SInv (view st) m) {id : Nat} {s : Stream}
+    (hf : findStream st.streams id = some s) (hl : s.live = true) (flen : Int) :
+    ∃ m', Send.run m ((discardData st s flen).2.map Event.c) = .ok m' ∧
+      SInv (view (discardData st s flen).1) m' := by
+  obtain ⟨m1, hr1, hi1⟩ := sim_terminate_client h hf hl (s' := s) rfl rfl rfl
+  unfold discardData
+  simp only
+  split
+  · split
+    · exact ⟨m, rfl, h⟩
+    · split
+      · exact ⟨m, rfl, h⟩
+      · refine ⟨m1, ?_, hi1⟩
+        rw [List.map_append]
+        exact send_run_ok_append hr1 (send_run_wu hi1.hdr _ _)
+  · exact ⟨m1, hr1, hi1⟩
 
 theorem sim_peerData {st : State} {m : Send} (h : SInv (view st) m) (id len pad : Nat) (es : Bool) :
     ∃ m', Send.run (m.peer (.data id len pad es)) ((peerData st id len pad es).2.map Event.c) = .ok m' ∧
@@ -1100,7 +1267,7 @@ theorem sim_peerData {st : State} {m : Send} (h : SInv (view st) m) (id len pad 
     obtain ⟨hf, hl⟩ := hfl
     obtain ⟨ms, hms, hr, hm1'⟩ := hpair s hf
     split
-    · exact sim_terminate_client hbase hf hl rfl rfl rfl
+    · exact sim_discardData hbase hf hl _
     · rename_i hok
       have hpe : s.peerEnd = false := by
         cases hx : s.peerEnd <;> simp [hx] at hok ⊢
@@ -1175,13 +1342,20 @@ theorem map_delta_ids (delta : Int) (l : List Stream) :
   intro x _
   exact deltaStream_id delta x
 
-def invalidSetting (p : Nat × Nat) : Bool := p.1 == sInitialWindowSize && decide (p.2 > 2147483647)
+def invalidSetting (p : Nat × Nat) : Bool :=
+  (p.1 == sInitialWindowSize && decide (p.2 > 2147483647)) ||
+  (p.1 == sMaxFrameSize && (decide (p.2 < 16384) || decide (p.2 > 16777215)))
 
 theorem applySetting_none {st : State} {sm : Bool} {p : Nat × Nat}
     (h : applySetting st sm p = none) : invalidSetting p = true := by
   unfold applySetting at h
   split at h
-  · cases h
+  · rename_i h5
+    split at h
+    · rename_i hr
+      have hne : ¬ p.1 = sInitialWindowSize := by rw [h5]; decide
+      rcases hr with hr | hr <;> simp [invalidSetting, h5, hr, sMaxFrameSize, sInitialWindowSize]
+    · cases h
   · split at h
     · cases h
     · split at h
@@ -1193,7 +1367,6 @@ theorem applySetting_none {st : State} {sm : Bool} {p : Nat × Nat}
       · cases h
 
 theorem sim_applySetting {st st' : State} {m : Send} {sm sm' : Bool} {p : Nat × Nat}
-    (hp : p.1 = sMaxFrameSize → 16384 ≤ p.2)
     (h : SInv { (view st) with seenSettings := true } m)
     (cn : st.seenSettings = false → sm = false → m.maxConc = none)
     (heq : applySetting st sm p = some (st', sm')) :
@@ -1204,11 +1377,19 @@ theorem sim_applySetting {st st' : State} {m : Send} {sm sm' : Bool} {p : Nat ×
   unfold applySetting at heq
   split at heq
   · rename_i h5
-    cases heq
-    have hne : ¬ p.1 = sInitialWindowSize := by rw [h5]; decide
-    have hack : ackSetting m p = { m with maxFrame := p.2 } := by unfold ackSetting; rw [if_pos h5]
-    rw [hack]
-    exact ⟨by simp [invalidSetting, hne], { h with maxFrame := rfl, frameLo := hp h5 }, cn, rfl⟩
+    split at heq
+    · cases heq
+    · rename_i hr
+      cases heq
+      have hne : ¬ p.1 = sInitialWindowSize := by rw [h5]; decide
+      have hack : ackSetting m p = { m with maxFrame := p.2 } := by unfold ackSetting; rw [if_pos h5]
+      have hlo : 16384 ≤ p.2 := by omega
+      have hhi : p.2 ≤ 16777215 := by omega
+      rw [hack]
+      refine ⟨?_, { h with maxFrame := rfl, frameLo := hlo }, cn, rfl⟩
+      have e1 : decide (p.2 < 16384) = false := by simp; omega
+      have e2 : decide (p.2 > 16777215) = false := by simp; omega
+      simp [invalidSetting, hne, e1, e2]
   · rename_i h5
     split at heq
     · rename_i h3
@@ -1217,7 +1398,7 @@ theorem sim_applySetting {st st' : State} {m : Send} {sm sm' : Bool} {p : Nat ×
       have hack : ackSetting m p = { m with maxConc := some p.2 } := by
         unfold ackSetting; rw [if_neg h5, if_pos h3]
       rw [hack]
-      refine ⟨by simp [invalidSetting, hne], { h with conc := ?_, concNone := ?_ }, ?_, rfl⟩
+      refine ⟨by simp [invalidSetting, hne, h5], { h with conc := ?_, concNone := ?_ }, ?_, rfl⟩
       · intro k hk; simp only [Option.some.injEq] at hk; exact hk
       · intro hx; simp at hx
       · intro _ hx; simp at hx
@@ -1235,7 +1416,7 @@ theorem sim_applySetting {st st' : State} {m : Send} {sm sm' : Bool} {p : Nat ×
           have hih := h.initHi
           simp only [view] at hiw hih
           have hp2 : p.2 ≤ 2147483647 := by omega
-          refine ⟨by simp [invalidSetting, hbig], ?_, cn, rfl⟩
+          refine ⟨by simp [invalidSetting, hbig, h5], ?_, cn, rfl⟩
           refine { h with initWin := rfl, initHi := hp2, ids := ?_, rel := ?_, nodup := ?_, idsLt := ?_, sorted := ?sorted, oddIds := ?oddIds }
           case sorted =>
             show ((st.streams.map (deltaStream ((p.2 : Int) - (st.initialWindowSize : Int)))).map (fun (x : Stream) => x.id)).Pairwise (· < ·)
@@ -1265,7 +1446,7 @@ theorem sim_applySetting {st st' : State} {m : Send} {sm sm' : Bool} {p : Nat ×
         have hack : ackSetting m p = m := by
           unfold ackSetting; rw [if_neg h5, if_neg h3, if_neg h4]
         rw [hack]
-        exact ⟨by simp [invalidSetting, h4], h, cn, rfl⟩
+        exact ⟨by simp [invalidSetting, h4, h5], h, cn, rfl⟩
 
 
 theorem applySettings_none {vals : List (Nat × Nat)} :
@@ -1280,7 +1461,7 @@ theorem applySettings_none {vals : List (Nat × Nat)} :
       simp [List.any, applySetting_none h1]
     · simp only [List.any, ih h, Bool.or_true]
 
-theorem sim_applySettings {vals : List (Nat × Nat)} (hv : ∀ p ∈ vals, p.1 = sMaxFrameSize → 16384 ≤ p.2) :
+theorem sim_applySettings {vals : List (Nat × Nat)} :
     ∀ {st st' : State} {m : Send} {sm sm' : Bool},
     SInv { (view st) with seenSettings := true } m →
     (st.seenSettings = false → sm = false → m.maxConc = none) →
@@ -1301,15 +1482,14 @@ theorem sim_applySettings {vals : List (Nat × Nat)} (hv : ∀ p ∈ vals, p.1 =
     split at heq
     · cases heq
     · rename_i st1 sm1 h1
-      obtain ⟨a1, a2, a3, a4⟩ := sim_applySetting (hv p List.mem_cons_self) h cn h1
-      obtain ⟨b1, b2, b3, b4⟩ := ih (fun q hq => hv q (List.mem_cons_of_mem _ hq)) a2 a3 heq
+      obtain ⟨a1, a2, a3, a4⟩ := sim_applySetting h cn h1
+      obtain ⟨b1, b2, b3, b4⟩ := ih a2 a3 heq
       refine ⟨by simp [List.any, a1, b1], b2, b3, by rw [b4, a4]⟩
 
 theorem send_pending_nil {m : Send} (h : m.pending = []) : { m with pending := [] } = m := by
   cases m; simp_all
 
-theorem sim_peerSettings {st : State} {m : Send} (h : SInv (view st) m) (vals : List (Nat × Nat))
-    (hv : ∀ p ∈ vals, p.1 = sMaxFrameSize → 16384 ≤ p.2) :
+theorem sim_peerSettings {st : State} {m : Send} (h : SInv (view st) m) (vals : List (Nat × Nat)) :
     ∃ m', Send.run (m.peer (.settings vals)) ((peerSettings st vals).2.map Event.c) = .ok m' ∧
       SInv (view (peerSettings st vals).1) m' := by
   have h0 : SInv { (view st) with seenSettings := true } m := { h with concNone := by intro hx; simp at hx }
@@ -1320,15 +1500,15 @@ theorem sim_peerSettings {st : State} {m : Send} (h : SInv (view st) m) (vals : 
     have hany := applySettings_none hnone
     have : m.peer (.settings vals) = m := by
       simp only [Send.peer]
-      have : (vals.any fun p => p.1 == sInitialWindowSize && decide (p.2 > 2147483647)) = true := hany
+      have : (vals.any fun p => (p.1 == sInitialWindowSize && decide (p.2 > 2147483647)) || (p.1 == sMaxFrameSize && (decide (p.2 < 16384) || decide (p.2 > 16777215)))) = true := hany
       rw [this]; rfl
     rw [this]
     exact ⟨m, rfl, h⟩
   · rename_i st1 seenMax hsome
-    obtain ⟨b1, b2, b3, b4⟩ := sim_applySettings hv h0 cn0 hsome
+    obtain ⟨b1, b2, b3, b4⟩ := sim_applySettings h0 cn0 hsome
     have hpeer : m.peer (.settings vals) = { m with pending := [vals] } := by
       simp only [Send.peer]
-      have : (vals.any fun p => p.1 == sInitialWindowSize && decide (p.2 > 2147483647)) = false := b1
+      have : (vals.any fun p => (p.1 == sInitialWindowSize && decide (p.2 > 2147483647)) || (p.1 == sMaxFrameSize && (decide (p.2 < 16384) || decide (p.2 > 16777215)))) = false := b1
       rw [this, h.pending]; rfl
     rw [hpeer]
     refine ⟨vals.foldl ackSetting m, ?_, ?_⟩
@@ -1363,18 +1543,24 @@ theorem sim_peerSettings {st : State} {m : Send} (h : SInv (view st) m) (vals : 
 theorem sim_peer {st : State} {m : Send} (h : SInv (view st) m) (f : PFrame) (hok : f.ok) :
     ∃ m', Send.run (m.peer f) ((Conn.peer st f).2.map Event.c) = .ok m' ∧ SInv (view (Conn.peer st f).1) m' := by
   cases f with
-  | settings vals => exact sim_peerSettings h vals hok
+  | settings vals => exact sim_peerSettings h vals
   | settingsAck => exact sim_peerSettingsAck h
   | windowUpdate id inc => exact sim_peerWindowUpdate h id inc hok
   | rst id code => exact sim_peerRst h id code
   | goaway last => exact sim_peerGoAway h last
-  | headers id e => exact sim_peerHeaders h id e
+  | resp id e status cl => exact sim_peerResp h id e status cl
   | data id len pad e => exact sim_peerData h id len pad e
+  | ping ack d =>
+    simp only [Conn.peer, peerPing, Send.peer]
+    split
+    · exact ⟨m, rfl, h⟩
+    · exact ⟨m, by simp [Send.run, Send.step, Send.client, h.hdr], h⟩
+  | pushPromise id p => exact ⟨m, rfl, h⟩
 
 theorem sim_apply {st : State} {m : Send} (h : SInv (view st) m) (op : Op) (hok : op.ok) :
     ∃ m', Send.run m (opEvents op (apply st op).2) = .ok m' ∧ SInv (view (apply st op).1) m' := by
   cases op with
-  | openStream hl b k => exact sim_openStream h hl b k hok
+  | openReq r => exact sim_openStream h r hok
   | feed id n => exact sim_feed h id n
   | write id => exact sim_write h id
   | cancel id => exact sim_cancel h id
@@ -1492,7 +1678,7 @@ theorem sinv_init (cfg : Cfg) (hfix : cfg.fixes = Fixes.all) :
           sorted := by simp [view, newConn],
           oddIds := by intro s hs; simp [view, newConn] at hs,
           idsLt := by intro s hs; simp [view, newConn] at hs,
-          pendOpen := by intro a b c hx; simp [view, newConn] at hx }
+          pendOpen := by intro a hx; simp [view, newConn] at hx }
 
 /-- every run of the repaired model is accepted by the send side of the strict peer -/
 theorem send_conforms (cfg : Cfg) (hfix : cfg.fixes = Fixes.all) (ops : List Op) (hok : ∀ op ∈ ops, op.ok) :
